@@ -93,6 +93,8 @@ func newResult(t reflect.Type, opts resultOptions) (result, error) {
 			for _, as := range opts.As {
 				ifaceType := reflect.TypeOf(as).Elem()
 				if ifaceType == t {
+					// keep the result's own type when it is listed
+					asTypes = append(asTypes, ifaceType)
 					continue
 				}
 				if !t.Implements(ifaceType) {
@@ -286,6 +288,8 @@ func newResultSingle(t reflect.Type, opts resultOptions) (resultSingle, error) {
 			// Special case:
 			//   c.Provide(func() io.Reader, As(new(io.Reader)))
 			// Ignore instead of erroring out.
+			// The listed type is still one of the types to provide.
+			asTypes = append(asTypes, ifaceType)
 			continue
 		}
 		if !t.Implements(ifaceType) {
